@@ -30,6 +30,7 @@ pub struct Ctx {
     pub pred_panic_nth: Option<u64>,
     pub hasher_clone_panics: bool,
     pub drop_panics: u64,
+    pub forgotten: u64,
     // ---- allocator ledger
     pub blocks: StdMap<usize, (usize, usize)>, // user ptr -> (size, align)
     pub ev_log: Vec<(char, u64, u64, u64)>,    // ordered window log: ('A'|'F'|'R', size, align, 0) and ('K'|'V'|'T', serial, a, b) drops
